@@ -1,4 +1,5 @@
 import FalconModel.Finalize
+import FalconModel.FinalizeReader
 open Fz
 
 def hexD (n : Nat) : Char := if n < 10 then Char.ofNat (48+n) else Char.ofNat (87+n)
@@ -28,6 +29,9 @@ def runCase (ws : List String) : String :=
     match (kv ws "stream").splitOn ":" with
     | ["f", cs] => some (.fileLike, (splitNE cs ",").map fromHex)
     | ["i", cs] => some (.iter, (splitNE cs ",").map fromHex)
+    -- a file-like object given by its read contract (Fr, FinalizeReader.lean): r:<size>:<cap.cap.…|->:<tail>
+    | ["r", size, caps, tail] =>
+      some (.fileLike, Fr.blocks (Fr.content size.toNat!) ((if caps == "-" then [] else caps.splitOn ".").map String.toNat!) tail.toNat!)
     | _ => none
   let r : Resp := {
     status := (kv ws "status").toNat!, text := optB (kv ws "text"), data := optB (kv ws "data"),
